@@ -355,6 +355,13 @@ def run_property(pid, tier, keep=False, seed=0):
                     except Exception as e:  # witness search is best effort only
                         cex = None
                         log('note: witness search failed: %s' % e)
+                change = None
+                if cex is None and r['unit'].startswith('memfs_') and not os.environ.get('VERIF_NO_KANI_CEX'):
+                    try:
+                        import fsdiff
+                        change = fsdiff.find(REPO, ob['fn'])
+                    except Exception as e:
+                        log('note: behaviour-change search failed: %s' % e)
                 genp = None
                 if r.get('gen_text'):
                     genp = os.path.join(VERIF, 'replays', stamp + '.generated.rs')
@@ -365,6 +372,7 @@ def run_property(pid, tier, keep=False, seed=0):
                                         'spans': d.get('spans'), 'verifier_output': d.get('rendered', '')} for d in diags],
                     'checker_cmd': r.get('cmd'), 'generated_file': genp, 'rewrites_applied': r.get('rewrites'),
                     'failing_input': cex, 'failing_input_found': cex is not None,
+                    'behaviour_change_vs_HEAD': change,
                     'how_to_replay': (cex or {}).get('replay_cmd') if cex else 'cd /verif && ./check %s   (re-runs the verifier on the current /repo tree; the obligation above is the one that fails)' % pid,
                 }
                 json.dump(doc, open(rp, 'w'), indent=1)
